@@ -141,6 +141,7 @@ BE_CONDS = ('cc', '1', '0')
 BE_SHAPES = (('if', 1, False), ('ifelse', 1, True), ('ifelif', 2, False), ('ifelifelse', 2, True))
 BE_SCOPES = ('global', 'func')
 BE_WRAPS = ('plain', 'in-if', 'after-sibling-loop')
+BE_TAILS = ('log', 'continue', 'break')
 
 
 def branch_end_specs():
@@ -151,7 +152,12 @@ def branch_end_specs():
             for ends in itertools.product(range(len(ENDINGS)), repeat=nb):
                 for scope in BE_SCOPES:
                     for wrap in BE_WRAPS:
-                        out.append({'loop': loop, 'shape': shape, 'ends': list(ends), 'scope': scope, 'wrap': wrap, 'cond0': 'cc'})
+                        out.append({'loop': loop, 'shape': shape, 'ends': list(ends), 'scope': scope, 'wrap': wrap, 'cond0': 'cc', 'tail': 'log'})
+            # the loop body ends in a bare continue / break (the last statement of the body): endings without 'empty' forms
+            for ends in itertools.product(range(4), repeat=nb):
+                for tail in BE_TAILS[1:]:
+                    for scope in BE_SCOPES:
+                        out.append({'loop': loop, 'shape': shape, 'ends': list(ends), 'scope': scope, 'wrap': 'plain', 'cond0': 'cc', 'tail': tail})
             # literal first conditions (a parser may be tempted to special-case them): plain surroundings only
             for ends in itertools.product(range(4), repeat=nb):
                 for cond0 in BE_CONDS[1:]:
@@ -189,7 +195,8 @@ def build_branch_end(spec):
     pairs = [(cond0 if j == 0 else CC, branch(ends[j])) for j in range(nconds)]
     else_body = branch(ends[nconds]) if has_else else None
     chain = ('if', pairs, else_body)
-    inner = [log(), chain, log()]
+    tail = spec.get('tail', 'log')
+    inner = [log(), chain] + ([log()] if tail == 'log' else [(tail,)])
     if spec['wrap'] == 'in-if':
         inner = [log(), ('if', [(('not', CC), inner)], [log()]), log()]
     if spec['loop'] == 'while':
